@@ -157,6 +157,7 @@ class ArcBasedRoutingProblem(RoutingProblem):
         """Get the unique id/index of the binary variable given the "tuple" indexing
            Return of None means the tuple does not correspond to a variable
         """
+        self.enumerate_variables()
         try:
             return self.var_mapping.index((node_1_index, time_1, node_2_index, time_2))
         except ValueError:
@@ -164,6 +165,7 @@ class ArcBasedRoutingProblem(RoutingProblem):
 
     def get_var_tuple_index(self, var_index):
         """Inverse of get_var_index"""
+        self.enumerate_variables()
         try:
             return self.var_mapping[var_index]
         except IndexError:
